@@ -343,6 +343,26 @@ def run(chk, ctx):
            'objects on the decode side' if not kept_ else
            '; '.join(kept_[:2]), site='pamqp/decode.py / pamqp/frame.py')
     flag_bit_rule(chk, ctx)
+    # the decoder walks the arguments in the order the specification puts
+    # them on the wire (the same list drives the encoder, so a swapped pair
+    # round-trips with itself and only a peer's frame shows it)
+    nord = 0
+    for m_ in ctx.spec.methods():
+        ci_ = ctx.prog.classes.get('pamqp.commands.' + m_.py_name)
+        if ci_ is None:
+            continue
+        try:
+            got_ = list(ctx.slots_of(ci_))
+        except Exception:
+            continue
+        want_ = [a_.py_name for a_ in m_.args]
+        nord += 1
+        if got_ != want_:
+            chk.ob('C05.M', '%s argument order' % ci_.short, False,
+                   'decoded in the order %r; the specification has %r' %
+                   (got_, want_), site='pamqp/commands.py')
+    chk.ob('C05.M', 'argument order of the 64 methods', nord >= 64,
+           '%d classes compared with the specification' % nord)
     # the content decoders get the payload as the peer sent it
     from .c06 import payload_edits
     keys_ = [k for k, _ in ctx.index_mapping()]
